@@ -12,6 +12,10 @@ extras with basis reset to A) and iter_changes is run through
 The Coq model (Model/TreeCompare.v) predicts slots 0-2 always and the dirstate result when
 no filter is given; the oracle evaluates the property itself (agreement of the
 implementations, soundness/completeness against the spec, validity of the applied delta).
+The filtered dirstate result varies between runs of the same case (the compiled walker iterates a hash
+set: duplicates and the ENOTDIR crash come and go), so it is judged only through predicates that are
+stable under that: per-change soundness, completeness as a set, validity of the applied delta; a
+duplicate or the crash is accepted only under its known finding; it is never fed to the model.
 """
 import json
 import os
@@ -31,9 +35,10 @@ META = {
     "technique": ("Coq theorems over an abstract versioned-tree library (Lib/Tree.v) and a hand model of the generic walker, "
                   "_handle_precise_ids and the CHK glue + correspondence on real 2a trees through four implementations"),
     "level_text": ("Round trip apply_changes(changes a b) a = b proved for all valid trees; the unfiltered generic walker and CHK glue "
-                   "proved equal to the comparison spec; filtered results proved sound, complete on the selected ids and closed under "
-                   "target parents (partial correctness of the closure loop); full validity of a filtered delta and absence of duplicates "
-                   "are machine-refuted (witnesses replayed on the real code).  Hand model tied to /repo by running generic, CHK, and "
+                   "proved equal to the comparison spec for both include_unchanged settings; no id is reported twice (proved, filtered or "
+                   "not); filtered results proved sound, complete on the selected ids and closed under target parents (partial correctness "
+                   "of the closure loop); full validity of a filtered delta is machine-refuted (sibling names can collide; witness replayed "
+                   "on the real code).  Hand model tied to /repo (after repairs 5cddeb1, b515e80, b7b83f3) by running generic, CHK and "
                    "dirstate comparisons of real trees built from generated edit scripts."),
     "level_note": ("Trusted: Coq kernel, vm_compute, the hand model's correspondence (sampled), the environment models "
                    "(CHKInventory.iter_changes = spec, iter_entries_by_dir(specific ids) = exactly those ids).  The dirstate comparison core "
@@ -47,7 +52,8 @@ META = {
                     "no tree references, no root id change, POSIX working tree (symlinks, executable bit)",
                     "the closure loop _handle_precise_ids terminates (model: fuel (|a|+|b|+2)^2; exhaustion would show as a disagreement)"],
     "rule": ("tree pairs from random base trees (<=7 ids, names a-e) and edit scripts (rename, move, swap, kind change, modify, delete, add, "
-             "replace) x filters (None, [], singles and subsets of <=5 paths incl. unversioned/nonexistent) x include_unchanged x "
+             "replace, directory replaced by a new id) plus two targeted shapes (cross-tree children closure; in-place modification below a "
+             "renamed ancestor with a file-level filter) x filters (None, [], singles and subsets of <=5 paths incl. unversioned/nonexistent) x include_unchanged x "
              "want_unversioned x require_versioned; non-trivial = the trees differ"),
 }
 SHARD = 150
